@@ -58,9 +58,20 @@ def gen_context(r, depth, head):
             return C
     return ("a", "x")
 
+def grid_pairs(r, tier):
+    """every law under every unary operator shape (n-fold variants included); n-fold laws under all of them even in the quick tier"""
+    out = []
+    p, q = ("a", "a"), ("a", "b")
+    shapes = gen.unary_shapes()
+    for name, lhs, rhs, head in laws(p, q):
+        full = name in ("next-0", "next-2", "wnext-3", "prev-2", "wprev-2") or tier != "quick"
+        for u in (shapes if full else r.sample(shapes, 4)):
+            out.append((name, u(lhs), u(rhs), False))
+    return out
+
 def gen_pairs(seed, n, tier):
     r = random.Random(seed)
-    out = []
+    out = grid_pairs(r, tier)
     for i in range(n):
         p = gen.gen_sform(r, r.randint(0, 1), ATOMS)
         q = gen.gen_sform(r, r.randint(0, 1), ATOMS)
